@@ -205,11 +205,11 @@ def r3(ctx, eff):
 
 def check(ctx):
     ctx.explanation = (
-        "Schema script parsed (every CREATE TABLE unconditional, creation dominates population); the force block of the creator is the "
-        "only remover of the target and is control-dependent on `force` alone; for each read-style FeatureDB method the transitive effect "
-        "set over the resolved call graph contains SELECT only (no DML/DDL, commit, executescript or file effect), and the statements "
-        "built by make_query/region are SELECTs in every partition. Does not decide the byte content of a file after a failed call "
-        "(SQLite's behaviour for PRAGMAs and a failed script).")
+        "Schema script parsed (every CREATE TABLE unconditional, creation dominates population); the creator's constructor is evaluated "
+        "abstractly for force x target kind x file existence with every other option symbolic (a removal that depended on anything else would "
+        "appear as a fork); for each read-style FeatureDB method the transitive effect set over the resolved call graph contains SELECT only "
+        "(SQL text assembled at run time is resolved by abstract evaluation), and the statements built by make_query/region are SELECTs in "
+        "every partition. Does not decide the byte content of a file after a failed call.")
     eff = Effects(ctx)
     r1(ctx)
     r2(ctx, eff)
